@@ -687,9 +687,14 @@ pub fn run(ctx: &Ctx) -> Report {
         lens.extend([100, 255, 300, 4096, 65535 + 8]);
         lens.sort();
         lens.dedup();
+        if ctx.scale < 1.0 {
+            // interpreted slices: every octet costs microseconds there; the first wrap-around of a one-octet length is kept
+            lens.retain(|&n| n <= 270);
+        }
         let mut n = 0;
         for &len in &lens {
-            let mut d: Vec<u8> = (0..len).map(|_| *rng.pick(good)).collect();
+            let start = rng.below(good.len() as u64) as usize;
+            let mut d: Vec<u8> = good.iter().cycle().skip(start).take(len).copied().collect();
             check_ltt(l, 3600, false, Some(&d));
             n += 1;
             if len > 8 {
